@@ -242,7 +242,7 @@ Definition uw_step (w : list block) (r : triple) : list block :=
   let '(y, i, d) := r in
   match remove_first_set y w with
   | Some w' => w' ++ [i; d]
-  | None => if Nat.leb (length i) (length d) then w ++ [i] else w ++ [d]
+  | None => w ++ [i; d]
   end.
 
 Lemma uw_cons : forall w r rs, update_worklist w (r :: rs) = update_worklist (uw_step w r) rs.
@@ -283,7 +283,7 @@ Proof.
   intros w [[y i] d] B HB Hn. unfold fst3 in Hn; simpl in Hn. unfold uw_step.
   destruct (remove_first_set y w) as [w'|] eqn:R.
   - apply rfs_some in R. destruct R as (_ & _ & _ & R). apply in_or_app. left. apply R; auto.
-  - destruct (Nat.leb (length i) (length d)); apply in_or_app; left; exact HB.
+  - apply in_or_app; left; exact HB.
 Qed.
 
 Lemma uw_step_from : forall w r B, In B (uw_step w r) -> In B w \/ B = snd3 r \/ B = thd3 r.
@@ -292,15 +292,14 @@ Proof.
   destruct (remove_first_set y w) as [w'|] eqn:R.
   - apply rfs_some in R. destruct R as (_ & _ & R & _). apply in_app_or in H.
     destruct H as [H|[H|[H|[]]]]; auto.
-  - destruct (Nat.leb (length i) (length d)); apply in_app_or in H;
-      destruct H as [H|[H|[]]]; auto.
+  - apply in_app_or in H. destruct H as [H|[H|[H|[]]]]; auto.
 Qed.
 
-Lemma uw_step_length : forall w r, length (uw_step w r) = S (length w).
+Lemma uw_step_length : forall w r, length (uw_step w r) <= length w + 2.
 Proof.
   intros w [[y i] d]. unfold uw_step. destruct (remove_first_set y w) as [w'|] eqn:R.
   - apply rfs_some in R. destruct R as (_ & R & _). rewrite app_length. simpl. lia.
-  - destruct (Nat.leb (length i) (length d)); rewrite app_length; simpl; lia.
+  - rewrite app_length; simpl; lia.
 Qed.
 
 Lemma uw_keep : forall rs w B,
@@ -322,10 +321,10 @@ Proof.
   - right. exists r'. split; [right; exact H1|exact H2].
 Qed.
 
-Lemma uw_length : forall rs w, length (update_worklist w rs) = length w + length rs.
+Lemma uw_length : forall rs w, length (update_worklist w rs) <= length w + 2 * length rs.
 Proof.
   induction rs as [|r rs IH]; intros w; [simpl; lia|].
-  rewrite uw_cons, IH, uw_step_length. simpl. lia.
+  rewrite uw_cons. pose proof (IH (uw_step w r)). pose proof (uw_step_length w r). simpl. lia.
 Qed.
 
 (* later triples never mention the blocks of an earlier triple *)
@@ -361,10 +360,24 @@ Proof.
     { destruct r as [[y i] d]. unfold snd3, thd3; simpl.
       destruct (remove_first_set y w) as [w'|].
       - left. apply in_or_app. right. left. reflexivity.
-      - destruct (Nat.leb (length i) (length d)).
-        + left. apply in_or_app. right. left. reflexivity.
-        + right. apply in_or_app. right. left. reflexivity. }
+      - left. apply in_or_app. right. left. reflexivity. }
     destruct K as [K|K]; [left|right]; apply uw_keep; auto;
+      intros r' Hr'; apply Hok1 in Hr'; tauto.
+  - apply IH; auto.
+Qed.
+
+(* both halves of every split block are on the work-list afterwards (whether or not the
+   split block was there) *)
+Lemma uw_both_any : forall rs w r, rs_ok rs -> In r rs ->
+  In (snd3 r) (update_worklist w rs) /\ In (thd3 r) (update_worklist w rs).
+Proof.
+  induction rs as [|r0 rs IH]; intros w r Hok Hr; [destruct Hr|].
+  destruct Hok as [Hok1 Hok2]. rewrite uw_cons. destruct Hr as [Hr|Hr].
+  - subst r0.
+    assert (K : In (snd3 r) (uw_step w r) /\ In (thd3 r) (uw_step w r)).
+    { destruct r as [[y i] d]. unfold snd3, thd3; simpl.
+      destruct (remove_first_set y w) as [w'|]; split; apply in_or_app; right; simpl; auto. }
+    destruct K as [K1 K2]. split; apply uw_keep; auto;
       intros r' Hr'; apply Hok1 in Hr'; tauto.
   - apply IH; auto.
 Qed.
@@ -386,7 +399,7 @@ Qed.
 
 (* ---------- the measure ---------- *)
 Definition mu (p : list block) : nat := fold_right (fun y a => pred (length y) + a) 0 p.
-Definition Phi (p w : list block) : nat := length w + mu p.
+Definition Phi (p w : list block) : nat := length w + 2 * mu p.
 
 Lemma sp_mu : forall x p, mu (sp_fst x p) + length (sp_snd x p) = mu p.
 Proof.
@@ -407,18 +420,19 @@ Proof.
 Qed.
 
 Lemma refine_Phi : forall es a pw c,
-  Phi (fst (refine_by es a pw c)) (snd (refine_by es a pw c)) = Phi (fst pw) (snd pw).
+  Phi (fst (refine_by es a pw c)) (snd (refine_by es a pw c)) <= Phi (fst pw) (snd pw).
 Proof.
-  intros es a [p w] c. rewrite refine_by_eq. simpl. unfold Phi. rewrite uw_length.
+  intros es a [p w] c. rewrite refine_by_eq. simpl. unfold Phi.
+  pose proof (uw_length (sp_snd (parent_states es a c) p) w).
   pose proof (sp_mu (parent_states es a c) p). lia.
 Qed.
 
 Lemma fold_refine_Phi : forall es a alpha pw,
   Phi (fst (fold_left (refine_by es a) alpha pw)) (snd (fold_left (refine_by es a) alpha pw))
-  = Phi (fst pw) (snd pw).
+  <= Phi (fst pw) (snd pw).
 Proof.
-  intros es a. induction alpha as [|c alpha IH]; intros pw; [reflexivity|].
-  simpl. rewrite IH. apply refine_Phi.
+  intros es a. induction alpha as [|c alpha IH]; intros pw; [apply Nat.le_refl|].
+  simpl. eapply Nat.le_trans; [apply IH|apply refine_Phi].
 Qed.
 
 (* ---------- the loop rule ---------- *)
@@ -493,7 +507,9 @@ Proof.
     change (w' ++ [i; d]) with (w' ++ [i] ++ [d]). rewrite app_assoc.
     apply nodup_snoc; [apply nodup_snoc; auto|].
     intros K. apply in_app_or in K. destruct K as [K|[K|[]]]; auto.
-  - destruct (Nat.leb (length i) (length d)); apply nodup_snoc; auto.
+  - change (w ++ [i; d]) with (w ++ [i] ++ [d]). rewrite app_assoc.
+    apply nodup_snoc; [apply nodup_snoc; auto|].
+    intros K. apply in_app_or in K. destruct K as [K|[K|[]]]; auto.
 Qed.
 
 Lemma uw_nodup : forall rs w, NoDup w -> NoDup (halves rs) ->
